@@ -318,6 +318,18 @@ def gen_model(rng, cfg=None, feats=None):
                     for x in extra:
                         args.append(x)
                         expr = f"xp.all(xp.asarray([{expr}, {x} >= 0]))" if scalar_style else f"xp.logical_and({expr}, {x} >= 0)"
+            elif 0.2 <= form < 0.32 and len(fs_) >= 1 and len(fc_) >= 1 and not use_period and not F["excluded_states"] and not F.get("scalar_aux"):
+                # arithmetic on the category codes whose intermediate result can be negative
+                # (adjustment limits such as |hours - lagged_hours| <= 1)
+                s, c = fs_[0], fc_[0]
+                k = int(rng.integers(0, 2))
+                expr = [f"xp.abs({c} - {s}) <= {k}", f"{c} - {s} <= {k - 1}", f"{s} - {c} >= {-k}", f"({c} - {s}) * ({c} - {s}) <= {k + 1}"][int(rng.integers(0, 4))]
+                args = [c, s]
+                realised["code_difference_filter"] = True
+                if j == 0:
+                    for x in [x for x in sparse_S + sparse_C if x not in args]:
+                        args.append(x)
+                        expr = f"xp.logical_and({expr}, {x} >= 0)"
             else:
                 dims = [spec[a]["n"] for a in args] + ([T] if use_period else [])
                 tab = rng.random(dims) < 0.72
